@@ -1,5 +1,6 @@
 import AdeuModel.Lemmas.ExtractRaw
 import AdeuModel.Model.Engine
+import AdeuModel.Model.ShownShape
 /-
 Layers D + E — a comment attached to a change is shown with that change.
 
@@ -10,11 +11,6 @@ open - so they are rendered in one metadata block (`rawSegs_notes`, `metaGroups_
 -/
 namespace Adeu.Doc
 open Adeu
-
-/-- field state after a list of nodes -/
-def stAfter (st : FieldSt) : List Node → Nat → FieldSt
-  | [], _ => st
-  | n :: rest, ni => stAfter (nodeItems st ni n).1 rest (ni + 1)
 
 theorem itemsFrom_append (st : FieldSt) : ∀ (a b : List Node) (k : Nat),
     itemsFrom st (a ++ b) k = itemsFrom st a k ++ itemsFrom (stAfter st a k) b (k + a.length) := by
@@ -65,8 +61,6 @@ theorem mem_revSet (k : Str) (a : Option Str) : ∀ m : RevMap, k ∈ (revSet k 
     split
     · simp
     · simp only [List.map_cons, List.mem_cons]; exact Or.inr (mem_revSet k a r)
-
-def isT : Atom → Bool | .t _ => true | _ => false
 
 theorem fold_plain : ∀ (l : List Atom) (s : FieldSt), l.all isT = true → l.foldl fieldStep s = s := by
   intro l
